@@ -75,6 +75,33 @@ def eval_prog(ld, st):
     st.seen('result', (pr.outer, cs.callee, shape_of(sig), pr.route))
     if why != 'looked-through':
         return      # the plain signature of the partial is reported: nothing is claimed about the callee
+    # sibling partial objects: the same function and bound positionals, one more bound keyword -- each object has the
+    # signature of its own bindings, whatever was retrieved before
+    for kw in space.kwpass(shape_of(exp))[:2]:
+        w2 = functools.partial(w.func, *w.args, **dict(w.keywords, **{kw: ('sibling', kw)}))
+        st.inc('transitions')
+        try:
+            sig2 = sigtools.signature(w2)
+            again = sigtools.signature(w)
+        except Exception as e:  # noqa
+            st.violation('partial-of-wrapper-retrieval-raises', case,
+                         {'program': discovery.show_prog(ld), 'sibling_binding': kw, 'error': '%s: %s' % (type(e).__name__, e)},
+                         {'route': pr.route, 'object': 'sibling'})
+            break
+        q = sig2.parameters.get(kw)
+        probs = []
+        if q is None or q.kind != q.KEYWORD_ONLY or q.default != ('sibling', kw):
+            probs.append('bound keyword %r is not a keyword-only parameter with the bound value as default' % kw)
+        d2 = sig2.sources.get('+depths', {})
+        if d2.get(w2) != 0 or w in d2:
+            probs.append('depths name %s, not this partial object at depth 0' % ('the sibling' if w in d2 else 'nothing'))
+        if alg.params_key(again) != alg.params_key(sig):
+            probs.append('the first partial object now reports %s' % again)
+        if probs:
+            st.violation('partial-of-wrapper-signature', case,
+                         {'program': discovery.show_prog(ld), 'first_partial': str(sig), 'sibling_binding': kw,
+                          'sibling_reported': str(sig2), 'problems': probs}, {'route': pr.route, 'why': 'sibling'})
+            break
     # execution: every non-colliding call the reported signature accepts runs
     rshape = shape_of(sig)
     alpha = discovery.alphabet()
